@@ -5,9 +5,11 @@ package main
 import (
 	"fmt"
 	"go/types"
+	"sort"
 	"strings"
 
 	"golang.org/x/tools/go/ssa"
+	"golang.org/x/tools/go/ssa/ssautil"
 )
 
 func (e *Engine) relName(f *ssa.Function) string {
@@ -1091,6 +1093,18 @@ func (r *FnRun) doAppendK(st *State, fr *frame, instr ssa.Instruction, c *ssa.Ca
 		}
 	}
 	inPlace := "(<= " + nlen + " " + a.Cap + ")"
+	if isIntLit(nlen) && isIntLit(a.Cap) {
+		var x, y int64
+		fmt.Sscanf(nlen, "%d", &x)
+		fmt.Sscanf(a.Cap, "%d", &y)
+		if !strings.HasPrefix(nlen, "(") && !strings.HasPrefix(a.Cap, "(") {
+			if x <= y {
+				inPlace = "true"
+			} else {
+				inPlace = "false"
+			}
+		}
+	}
 	// 1. in place
 	if inPlace != "false" {
 		s1 := st.clone()
@@ -1101,6 +1115,9 @@ func (r *FnRun) doAppendK(st *State, fr *frame, instr ssa.Instruction, c *ssa.Ca
 		k(s1, &V{K: KSlice, T: rt, Arr: a.Arr, Off: a.Off, Len: nlen, Cap: a.Cap})
 	}
 	// 2. reallocation
+	if inPlace == "true" {
+		return
+	}
 	s2 := st.clone()
 	s2.assume(sNot(inPlace))
 	narr := s2.allocRef()
@@ -1393,6 +1410,21 @@ func (e *Engine) reachableFns(f *ssa.Function) map[string]bool {
 					m[e.relName(callee)] = true
 					walk(callee)
 				}
+				// dynamic dispatch: an interface call may reach every repository method of that name, a call of a
+				// function value every repository function whose address is taken somewhere
+				if cc, ok := ins.(ssa.CallInstruction); ok && callee == nil {
+					c := cc.Common()
+					var cands []*ssa.Function
+					if c.IsInvoke() {
+						cands = e.dynTargets().byMethod[c.Method.Name()]
+					} else if _, isBuiltin := c.Value.(*ssa.Builtin); !isBuiltin {
+						cands = e.dynTargets().addrTaken
+					}
+					for _, g2 := range cands {
+						m[e.relName(g2)] = true
+						walk(g2)
+					}
+				}
 			}
 		}
 	}
@@ -1421,4 +1453,64 @@ func (r *FnRun) preserveUnreachableCounters(st, pre *State, f *ssa.Function) {
 		id := r.eng.strID(name)
 		st.assume(sEq(sSel(nw, id), sSel(od, id)))
 	}
+}
+
+
+type dynTargets struct {
+	byMethod  map[string][]*ssa.Function
+	addrTaken []*ssa.Function
+}
+
+// dynTargets: candidate targets of dynamic calls among repository functions (by method name; address taken).
+func (e *Engine) dynTargets() *dynTargets {
+	if e.dyn != nil {
+		return e.dyn
+	}
+	d := &dynTargets{byMethod: map[string][]*ssa.Function{}}
+	e.dyn = d
+	taken := map[*ssa.Function]bool{}
+	var all []*ssa.Function
+	for f := range ssautil.AllFunctions(e.prog) {
+		if f == nil || f.Pkg == nil || !e.isRepoPkg(f.Pkg.Pkg) {
+			if f == nil || f.Synthetic == "" || pkgOfFn(f) == nil || !e.isRepoPkg(pkgOfFn(f)) {
+				continue
+			}
+		}
+		all = append(all, f)
+	}
+	sort.Slice(all, func(i, j int) bool { return all[i].String() < all[j].String() })
+	for _, f := range all {
+		if f.Signature.Recv() != nil && len(f.Blocks) > 0 && f.Synthetic == "" {
+			d.byMethod[f.Name()] = append(d.byMethod[f.Name()], f)
+		}
+		for _, b := range f.Blocks {
+			for _, ins := range b.Instrs {
+				var ops []*ssa.Value
+				ops = ins.Operands(ops)
+				for i, op := range ops {
+					if op == nil || *op == nil {
+						continue
+					}
+					g, ok := (*op).(*ssa.Function)
+					if !ok {
+						continue
+					}
+					if cc, isCall := ins.(ssa.CallInstruction); isCall && i == 0 && cc.Common().Value == g {
+						continue // call position
+					}
+					if _, isMC := ins.(*ssa.MakeClosure); isMC {
+						continue // closures are followed where they are created
+					}
+					if pkgOfFn(g) != nil && e.isRepoPkg(pkgOfFn(g)) {
+						taken[g] = true
+					}
+				}
+			}
+		}
+	}
+	for g := range taken {
+		d.addrTaken = append(d.addrTaken, g)
+	}
+	sort.Slice(d.addrTaken, func(i, j int) bool { return d.addrTaken[i].String() < d.addrTaken[j].String() })
+	return d
 }
